@@ -27,6 +27,7 @@ import (
 	"time"
 
 	"github.com/dgraph-io/badger/v4"
+	"github.com/mimiro-io/datahub/internal/verifhook"
 )
 
 type fullSyncLease struct {
@@ -223,7 +224,9 @@ func (ds *Dataset) StoreEntities(entities []*Entity) (Error error) {
 		return nil
 	}
 
+	verifhook.Point("store.lock.want", ds.ID)
 	ds.WriteLock.Lock()
+	verifhook.Point("store.locked", ds.ID)
 	writeLockStart := time.Now()
 	// release lock at end regardless
 	defer func() {
@@ -243,20 +246,24 @@ func (ds *Dataset) StoreEntities(entities []*Entity) (Error error) {
 		return err
 	}
 
+	verifhook.Point("store.built", ds.ID)
 	err = ds.store.commitIDTxn()
 	if err != nil {
 		return err
 	}
+	verifhook.Point("store.idcommitted", ds.ID)
 
 	err = txn.Commit()
 	if err != nil {
 		return err
 	}
+	verifhook.Point("store.committed", ds.ID)
 
 	err = ds.updateDataset(newitems, entities)
 	if err != nil {
 		return err
 	}
+	verifhook.Point("store.metaupdated", ds.ID)
 
 	return nil
 }
